@@ -25,16 +25,23 @@ CLAUSES = ["every feature of the relevance dict exactly once (permutation, no du
 STEMS = ["f", "feature", "user_", "x", "item-", "ctx AND dev", "é", "col", "A", "zz_", "q.", "0", "label", "ts "]
 DEN = 64
 HEADER = ("From Coq Require Import List QArith ZArith NArith.\nFrom Outrank Require Import Rank.QMedian Rank.ThreeMR.\n"
-          "Import ListNotations.\nOpen Scope Q_scope.")
+          "Import ListNotations.\nOpen Scope Q_scope.\n"
+          "Definition sc (m : Z) (e : positive) : Q := m # (2 ^ e)%positive.   (* literal m / 2^e of a double *)")
 
 
 # ---------------------------------------------------------------------------
 # generation
 
+SPECIAL_NAMES = ["", " ", "0", "None", "nan", "False", "NaN", "-"]     # falsy / NA-looking feature names are names like any other
+
+
 def gen_names(rng, n):
     names, seen = [], set()
     while len(names) < n:
-        s = rng.choice(STEMS) + str(rng.randint(0, 999))
+        if rng.random() < 0.12:
+            s = rng.choice(SPECIAL_NAMES)
+        else:
+            s = rng.choice(STEMS) + str(rng.randint(0, 999))
         if s not in seen:
             seen.add(s)
             names.append(s)
@@ -108,6 +115,55 @@ def gen_case(rng, hashseed, big=False):
                 alpha=alpha, beta=beta, hashseed=hashseed)
 
 
+def gen_close_case(rng, hashseed):
+    """Scores that are distinct but closer than 1e-12 (down to one unit in the last place / one denormal step), chosen so that
+    EVERY float operation of the implementation is exact (integers times one power of two, integer alpha/beta, sum or
+    even-valued median; or empty pair dictionaries, where importance = relevance) - the float argmax is the exact argmax and
+    the validator compares exactly.  Values travel as float.hex() literals."""
+    import math
+    n = rng.randint(2, 10)
+    names = gen_names(rng, n)
+    fam = rng.choice(["denormal", "tiny", "ulp", "tenth", "tinyrandom"])
+    order = list(range(n))
+    rng.shuffle(order)
+    red, rln = [], []
+    strategy = rng.choice(["sum", "median"])
+    alpha, beta = [rng.choice([0, 1, 1, 2]), 1], [rng.choice([0, 1, 1, 2]), 1]
+
+    def pairs(e, top):
+        out = []
+        kind = rng.choice(["dense", "sparse", "upper", "empty"])
+        for i in range(n):
+            for j in range(n):
+                keep = kind == "dense" or (kind == "sparse" and rng.random() < 0.4) or (kind == "upper" and i <= j)
+                if keep and kind != "empty":
+                    out.append([i, j, math.ldexp(float(2 * rng.randint(0, top)), e).hex()])
+        rng.shuffle(out)
+        return out
+    if fam == "denormal":                       # k * 5e-324
+        ks = rng.sample(range(0, 200), n)
+        rel = [[i, math.ldexp(float(k), -1074).hex()] for i, k in zip(order, ks)]
+        red, rln = pairs(-1074, 4), pairs(-1074, 4)
+    elif fam == "tiny":                         # m * 2^-1000 ~ m * 9.3e-302
+        ks = rng.sample(range(0, 2 ** 20), n)
+        rel = [[i, math.ldexp(float(k), -1000).hex()] for i, k in zip(order, ks)]
+        red, rln = pairs(-1000, 2 ** 10), pairs(-1000, 2 ** 10)
+    elif fam == "ulp":                          # 1 - k * 2^-53: neighbouring doubles below 1
+        ks = rng.sample(range(0, 64), n)
+        rel = [[i, (1.0 - math.ldexp(float(k), -53)).hex()] for i, k in zip(order, ks)]
+        red = pairs(-53, 3)                     # relevance - alpha * aggregate stays a multiple of 2^-53 inside [0.5, 1]
+    elif fam == "tenth":                        # 0.5 + k * 1e-13 (not dyadic, but importance = relevance: empty dictionaries)
+        ks = rng.sample(range(0, 100), n)
+        rel = [[i, (0.5 + k * 1e-13).hex()] for i, k in zip(order, ks)]
+        strategy = rng.choice(["sum", "median", "mean"])
+        alpha, beta = [rng.choice([0, 1, 3, 4, 8]), 4], [rng.choice([0, 1, 3, 4, 8]), 4]
+    else:                                       # random() * 1e-300, empty dictionaries
+        rel = [[i, (rng.random() * 1e-300).hex()] for i in order]
+        strategy = rng.choice(["sum", "median", "mean"])
+    return dict(names=names, den=DEN, rel=rel, red=red, rln=rln, defaults=False, strategy=strategy,
+                alpha=alpha, beta=beta, hashseed=hashseed, family="close:" + fam)
+
+
 def exhaustive_cases(hashseed):
     """All instances over 3 features with relevance in {0,1}/1, one redundancy and one relation entry placed on
     every ordered pair, each strategy."""
@@ -142,6 +198,17 @@ def q(num, den):
     return coqparse.lit(Fraction(int(num), int(den)))
 
 
+def qv(x, den):
+    """a score entry: an integer k means k/den, a string is a float.hex() literal (an exact dyadic rational)"""
+    if isinstance(x, str):
+        fr = Fraction(float.fromhex(x))
+        e = fr.denominator.bit_length() - 1          # the denominator of a double is a power of two
+        if e > 60:                                    # m / 2^e written as  sc m e  (a 300-digit decimal literal is slow to read)
+            return "(sc %s %d)" % (vlib.zlit(fr.numerator), e)
+        return coqparse.lit(fr)
+    return q(x, den)
+
+
 def strat_coq(case):
     if case.get("defaults"):
         return "Median", "(1 # 1)", "(1 # 1)"
@@ -152,10 +219,10 @@ def strat_coq(case):
 
 def inst_coq(case):
     den = case["den"]
-    rel = "[" + "; ".join("(%d%%N, %s)" % (i, q(k, den)) for i, k in case["rel"]) + "]"
+    rel = "[" + "; ".join("(%d%%N, %s)" % (i, qv(k, den)) for i, k in case["rel"]) + "]"
 
     def tbl(t):
-        return "[" + "; ".join("((%d%%N, %d%%N), %s)" % (i, j, q(k, den)) for i, j, k in t) + "]"
+        return "[" + "; ".join("((%d%%N, %d%%N), %s)" % (i, j, qv(k, den)) for i, j, k in t) + "]"
     st, a, b = strat_coq(case)
     return "(mk_inst %s %s %s %s %s %s)" % (rel, tbl(case["red"]), tbl(case["rln"]), st, a, b)
 
@@ -420,17 +487,23 @@ def check(run, replay):
             cases.append(gen_case(run.rng, hashseed))
         for i in range(4 if run.tier == "quick" else 60):
             cases.append(gen_case(run.rng, hashseed, big=True))
+        for i in range(60 if run.tier == "quick" else 600):
+            cases.append(gen_close_case(run.rng, hashseed))
         if run.tier == "thorough":
             cases.extend(exhaustive_cases(hashseed))
     ev = evaluate(cases)
 
     hist = {"n_features": {}, "strategy": {}, "defaults": 0, "unique_ranking": 0, "with_ties": 0, "impl_errors": 0,
-            "red_entries": {}, "alpha": {}, "beta": {}}
+            "red_entries": {}, "alpha": {}, "beta": {}, "family": {}, "special_feature_names": 0}
     same_as_model = differs_but_unique = 0
     first_bad = None
     for c, e in zip(cases, ev):
         n = len(c["rel"])
         hist["n_features"][n] = hist["n_features"].get(n, 0) + 1
+        fam = c.get("family", "k/64")
+        hist["family"][fam] = hist["family"].get(fam, 0) + 1
+        if any(c["names"][i] in SPECIAL_NAMES for i, _ in c["rel"]):
+            hist["special_feature_names"] += 1
         skey = "defaults" if c.get("defaults") else c["strategy"]
         hist["strategy"][skey] = hist["strategy"].get(skey, 0) + 1
         b = min(len(c["red"]) // 50 * 50, 900)
@@ -496,7 +569,11 @@ def check(run, replay):
     run.samples = [cases[j] for j in range(min(2, len(cases)))] + pipe_cases[:1]
     run.assumptions += [
         "feature names are abstracted to ids by the harness (equality of names = equality of ids)",
-        "scores are dyadic rationals k/64 and alpha, beta multiples of 1/4, so distinct exact importances at one step differ by "
+        "close-score families (denormals k*2^-1074, m*2^-1000, 1-k*2^-53, 0.5+k*1e-13, random()*1e-300): values are float.hex literals "
+        "read exactly; every float operation of the implementation is exact there (integers times one power of two with integer "
+        "alpha/beta and sum / even-valued median, or empty pair dictionaries where importance = relevance), so the validator compares "
+        "EXACTLY although importances differ by far less than 1e-12",
+        "other families: scores are dyadic rationals k/64 and alpha, beta multiples of 1/4, so distinct exact importances at one step differ by "
         ">= 1/(256*29) > 1e-4 while the float evaluation errs by < 1e-12: the float argmax is an exact argmax",
         "strategy strings other than 'median'/'mean' select the sum, as in the code's conditional; only median|mean|sum are generated",
         "the empty relevance dict (n = 0) is outside the property (max() raises) and is not generated",
